@@ -750,8 +750,67 @@ def b_mixed_types(tier):
     return b
 
 
+def _short_lived(i, kind):
+    """One statement of a generated stream, built on the fly; nothing of it is kept by the caller."""
+    import pymbolic.primitives as p
+    a, b = p.Variable("a"), p.Variable("b")
+    j = i if kind != "recur" else i // 2          # "recur": statement i wraps what statement i-1 or i-2 wrapped (an equal, newly built child)
+    u = p.CommonSubexpression(p.Sum((p.Product((a, j + 2)), b)))
+    return p.Sum((p.Product((u, p.Sum((u, 1)))), i))
+
+
+def b_short_lived(tier):
+    """Successive calls on one mapper where every expression is built, mapped and dropped before the next is built (a code generator walking statements)."""
+    import gc
+    from pymbolic.mapper.c_code import CCodeMapper
+    n = 300 if tier == "thorough" else 80
+    b = BoundedRun("short-lived-expressions", rule=f"{n} statements u*(u + 1) + i with u = CSE(a*(j + 2) + b), each built on the fly, sent through ONE mapper (and, in a second pass, through "
+                   "a copy made half way) and dropped before the next is built, so that the interpreter may reuse the addresses of dead nodes; j = i (all wrapped subexpressions distinct) and "
+                   "j = i // 2 (every subexpression recurs once as an equal, newly built object): one assignment per distinct wrapped subexpression, and every emitted text with the hoisted "
+                   "assignments has the statement's value at (a, b) in {0..3}^2 (the texts use only +, * and parentheses on small non-negative integers, where C and Python agree: they are "
+                   "evaluated with Python's eval - no compiler in this run)", bound=f"{n} statements x 2 recurrence patterns x 2 copy patterns x 16 points",
+                   functions=["CCodeMapper.map_common_subexpression", "CCodeMapper.copy"])
+    for kind in ("distinct", "recur"):
+        for copying in (False, True):
+            m = CCodeMapper()
+            texts = []
+            for i in range(n):
+                if copying and i == n // 2:
+                    m = m.copy()
+                texts.append(outcome.run(lambda: m(_short_lived(i, kind))))
+                if i % 7 == 0:
+                    gc.collect()
+            decls = list(m.cse_name_list)
+            distinct = n if kind == "distinct" else (n + 1) // 2
+            b.case(("assignments", kind, copying), nontrivial=True, sample=dict(kind=kind, copying=copying, assignments=len(decls)))
+            if len(decls) != distinct or len({nm for nm, _ in decls}) != len(decls):
+                b.fail(Failure("short-lived-expressions", f"what=assignment-count pattern={kind} copy={copying} assignments={len(decls)} distinct-wrapped={distinct}",
+                               dict(kind="short-lived", pattern=kind, copying=copying, what="count"), expected=f"{distinct} assignments with distinct names", actual=f"{len(decls)}: {decls[:4]}"[:200],
+                               functions=["CCodeMapper.map_common_subexpression"]))
+            bad = None
+            for av in range(4):
+                for bv in range(4):
+                    env = {"a": av, "b": bv, "__builtins__": {}}
+                    r = outcome.run(lambda: [env.__setitem__(nm, eval(rhs, env)) for nm, rhs in decls])      # noqa: S307
+                    for i, t in enumerate(texts):
+                        j = i if kind == "distinct" else i // 2
+                        uval = av * (j + 2) + bv
+                        want = uval * (uval + 1) + i
+                        got = outcome.run(lambda: eval(t[1], env)) if t[0] == "val" and r[0] == "val" else (t if t[0] != "val" else r)      # noqa: S307
+                        b.case(("value", kind, copying, i, av, bv))
+                        if got != ("val", want) and bad is None:
+                            bad = (i, av, bv, want, got, t)
+            if bad:
+                i, av, bv, want, got, t = bad
+                b.fail(Failure("short-lived-expressions", f"what=value pattern={kind} copy={copying} statement={i} a={av} b={bv} text={t[1] if t[0] == 'val' else None!r}",
+                               dict(kind="short-lived", pattern=kind, copying=copying, what="value"), expected=repr(want), actual=outcome.describe(got)[:200],
+                               functions=["CCodeMapper.map_common_subexpression"]))
+    return b
+
+
 def bounded(tier, seed, procs):
-    return [b_programs(tier, seed, "int"), b_systematic(tier), b_programs(tier, seed, "double"), b_cse(tier, seed), b_branching(tier, seed), b_mixin(tier, seed), b_mixed_types(tier)]
+    return [b_programs(tier, seed, "int"), b_systematic(tier), b_programs(tier, seed, "double"), b_cse(tier, seed), b_branching(tier, seed), b_mixin(tier, seed), b_mixed_types(tier),
+            b_short_lived(tier)]
 
 
 def proof_jobs(tier):
@@ -764,6 +823,8 @@ def replay(case):
     ns = {n: getattr(p, n) for n in dir(p)}
     ns["cse_scope"] = p.cse_scope
     out = {}
+    if case.get("kind") == "short-lived":
+        return any(f.case == case for f in b_short_lived("quick").failures)
     if "ops" in case:
         ops = eval(case["ops"], ns)
         r = outcome.run(lambda: run_case(ops))
